@@ -73,7 +73,27 @@ def eval_py(case):
     n = skipped = 0
     ns = len(ref.st)
     P = np.array([[(1.0 + 0.5 * i) if i == j else 0.125 for j in range(ns)] for i in range(ns)])
-    for env in space.grid_points(ref.st + ref.ct, case["per_symbol"], case["seed"], (0.125, -0.25)):
+    poly = all(space.is_polynomial(a_) for _, a_ in d["model"])
+    for env in space.grid_points(ref.st + ref.ct, case["per_symbol"], case["seed"], (0.125, -0.25), large=poly):
+        if max(abs(v_) for v_ in env.values()) > 1e6:
+            # large, nearly equal operands: only the polynomial state model is compared (its own sensors are transcendental),
+            # with a tolerance relative to the largest intermediate of the expression as written
+            from fv.refmodel import ref_eval_mag
+            full = ref.env(env)
+            try:
+                on_s = on._state_model.model(env["dt"], on.State(**{s_: env[s_] for s_ in ref.st}), on.Control(**{s_: env[s_] for s_ in ref.ct}))
+                off_s = off._state_model.model(env["dt"], off.State(**{s_: env[s_] for s_ in ref.st}), off.Control(**{s_: env[s_] for s_ in ref.ct}))
+            except Exception as e:
+                fail(f"raises:{type(e).__name__}", f"{type(e).__name__}: {str(e)[:200]} at {env}")
+                break
+            n += 1
+            for i_, s_ in enumerate(ref.st):
+                v_, m_ = ref_eval_mag(ref.f[s_], full)
+                for lab_, got_ in (("on", on_s.data[i_, 0]), ("off", off_s.data[i_, 0])):
+                    if not pyimpl.close(got_, v_, REL, float(m_)):
+                        fail("value-mismatch-large-operands", f"model '{s_}' cse={lab_}: {got_!r}, expected {float(v_)!r} (largest intermediate "
+                             f"{float(m_):.3g}) at {env}")
+            continue
         full = ref.env(env)
         try:
             fx, G, V = ref.fx(full), ref.G(full), ref.V(full)
